@@ -66,10 +66,10 @@ func LoadEngine(tier string) (*Engine, error) {
 	prog.Build()
 	e := &Engine{
 		Prog: prog, ModulePath: ModulePath, Models: map[string]ModelFn{}, NativeMeth: map[string]ModelFn{},
-		Tier: tier, LoopBound: 300, StepBound: 3_000_000, LazySliceMax: 2, Known: map[string]bool{}, Fset: fset,
+		Tier: tier, LoopBound: 300, StepBound: 3_000_000, LazySliceMax: 1, Summaries: true, Known: map[string]bool{}, Fset: fset,
 	}
 	if tier == "thorough" {
-		e.LazySliceMax = 3
+		e.LazySliceMax = 2
 	}
 	for _, sp := range spkgs {
 		if sp != nil && sp.Pkg.Path() == HarnessPkg {
@@ -111,6 +111,7 @@ type Report struct {
 	Samples      []*PathSample
 	classes      map[string]bool
 	SharedWrites map[string]int
+	ForkSites    map[string]int
 	Wall         time.Duration
 	TimedOut     bool
 }
@@ -160,7 +161,7 @@ func (q *workQueue) done() {
 func (e *Engine) Explore(harness string, workers int, solvers []string, queryMs int, budget time.Duration, maxSamples int) *Report {
 	fn := e.HarnessPkg.Func(harness)
 	rep := &Report{Harness: harness, Covers: map[string]bool{}, Inconclusive: map[string]int{}, Bounds: map[string]int{},
-		Funcs: map[string]int{}, Contracts: map[string]bool{}, classes: map[string]bool{}, SharedWrites: map[string]int{}}
+		Funcs: map[string]int{}, Contracts: map[string]bool{}, classes: map[string]bool{}, SharedWrites: map[string]int{}, ForkSites: map[string]int{}}
 	if fn == nil {
 		rep.Inconclusive["harness function "+harness+" not found"]++
 		return rep
@@ -230,6 +231,9 @@ func (e *Engine) Explore(harness string, workers int, solvers []string, queryMs 
 				for _, s := range x.sharedWrites {
 					rep.SharedWrites[s]++
 				}
+				for k, n := range x.forkSites {
+					rep.ForkSites[k] += n
+				}
 				for _, v := range x.violations {
 					key := v.ID + "|" + v.Region + "|" + v.Site
 					if !seenViol[key] {
@@ -245,7 +249,7 @@ func (e *Engine) Explore(harness string, workers int, solvers []string, queryMs 
 				}
 				mu.Unlock()
 				if wantSample {
-					if r, m := x.check(); r == Sat {
+					if r, m := x.checkM(); r == Sat {
 						mu.Lock()
 						rep.Samples = append(rep.Samples, &PathSample{Model: m, Outcomes: append([]string{}, x.outcomes...), Decision: dec})
 						mu.Unlock()
